@@ -26,6 +26,9 @@ type Secret struct {
 	// "maybe": the statements leave open whether it is still usable.
 	Status string
 	Note   string
+	// BeforeChange: (rm) the account's password has changed since the cookie
+	// was issued - set whatever the status was at that moment
+	BeforeChange bool
 }
 
 func (s *Secret) String() string {
